@@ -260,11 +260,48 @@ contract('C02', 'requantisation_formula_and_full_code_range', functions=[_C9.Q +
 # boundaries" depends on it for delayed antennas
 from . import c15 as _C15
 contract('C02', 'array_background_caches_survive_the_next_request', functions=[_C15.MA + '.get_samples', 'setigen.voltage.data_stream:DataStream._update_t'])(_C15.later_request_ownership)
-# every signal path (antenna, polarisation) owns its digitiser, filterbank and requantiser - including the requantiser's two component
-# quantisers, which hold the statistics caches: C14's constructor contract, discharged again here ("exactly the requantised PFB output of
-# that antenna and polarisation's stream" needs per-path statistics)
-from . import c14 as _C14
-contract('C02', 'every_signal_path_owns_its_pipeline_objects', functions=[BK + '.__init__'])(_C14.independent_tables)
 # "when quantiser statistics are taken from a common prefix": the estimate-once / every-p-th-call schedule of the quantisers (also for
 # non-positive periods) - C09's schedule contract, discharged again here
 contract('C02', 'quantiser_statistics_follow_the_configured_schedule', functions=[_C9.RQ + '.quantize', _C9.RQ + '._reset_cache'])(_C9.schedule)
+
+
+# every signal path (antenna, polarisation) owns its digitiser, filterbank and requantiser - including the requantiser's two component
+# quantisers, which hold the statistics caches ("exactly the requantised PFB output of that antenna and polarisation's stream" needs per-path
+# statistics).  Also discharged in the C14 check.
+def independent_tables(vc):
+    """Every (antenna, polarisation) has its *own* digitiser, filterbank and requantiser object (copies of the template, never the same object
+    twice): _read_next_block sets each requantiser's target statistics from its own input stream, so a shared object would give one antenna the
+    statistics of another."""
+    nant = 2 + vc.choose(2, 'num_antennas')
+    npol = 1 + vc.choose(2, 'num_pols')
+    sr = Real('sample_rate')
+    vc.assume(sr > 0)
+    src = vc.interp.call(classref(vc, 'setigen.voltage.antenna:MultiAntennaArray'), [], dict(num_antennas=nant, sample_rate=sr, fch1=Real('fch1'), ascending=True, num_pols=npol,
+                                                                                         delays=[0] * nant, t_start=0, seed=Int('seed')))
+    taps, nb = Int('num_taps'), Int('num_branches')
+    nc, M = Int('num_chans'), Int('windows')
+    vc.assume(And(taps >= 1, nb >= 2, nb % 2 == 0, nc >= 1, nc <= nb // 2, M >= 1))
+    dig = vc.interp.call(classref(vc, 'setigen.voltage.quantization:RealQuantizer'), [], dict(target_fwhm=Real('dig_fwhm'), num_bits=8))
+    fb = mkobj(vc, 'setigen.voltage.polyphase_filterbank:PolyphaseFilterbank', num_taps=taps, num_branches=nb, window=symbolic_array('h', (taps * nb,)), window_fn='hamming',
+               cache=None, channelized_stds=None)
+    fb.partial = False
+    rq = vc.interp.call(classref(vc, 'setigen.voltage.quantization:ComplexQuantizer'), [], dict(target_fwhm=Real('rq_fwhm'), num_bits=8))
+    bs = M * taps * nant * nc * 2 * npol
+    out = vc.run(lambda: vc.interp.call(classref(vc, BK), [src, dig, fb, rq], dict(start_chan=0, num_chans=nc, block_size=bs)))
+    vc.cover('reachable')
+    vc.ensure('C14/backend.__init__/exc/none', out.ok)
+    if not out.ok:
+        return
+    F = out.value.fields
+    for name, tmpl in (('digitizer', dig), ('filterbank', fb), ('requantizer', rq)):
+        tab = F[name]
+        objs = [tab[a][p] for a in range(nant) for p in range(npol)]
+        vc.ensure(f'C14/backend.__init__/post/{name}-one-independent-object-per-antenna-and-polarisation',
+                  And(len(tab) == nant, all(len(row) == npol for row in tab), len({id(o) for o in objs}) == len(objs), all(o is not tmpl for o in objs),
+                      len({id(row) for row in tab}) == nant))
+    rqs = [F['requantizer'][a][p] for a in range(nant) for p in range(npol)]
+    parts = [q.fields[k] for q in rqs for k in ('quantizer_r', 'quantizer_i')]
+    vc.ensure('C14/backend.__init__/post/requantiser-components-not-shared', len({id(o) for o in parts}) == len(parts))
+
+
+contract('C02', 'every_signal_path_owns_its_pipeline_objects', functions=[BK + '.__init__'])(independent_tables)
